@@ -20,6 +20,18 @@ type Facts struct {
 	rel  map[string]relAtom // relational atoms ("a < b", "a == b") with their operand syntax
 	info *types.Info
 	dead bool // the program point is unreachable (a constant branch condition contradicts the edge)
+	// pend: facts that become known when a boolean variable is tested: `a, b, ok := helper(x)` records what the
+	// helper guarantees when it returns ok == true / false; key "<ok> ⇒T: <atom>" / "<ok> ⇒F: <atom>"
+	pend map[string]pendAtom
+	// bexp: the expression of a non-relational boolean atom (c.closed, f(x)), for instantiating it elsewhere
+	bexp map[string]ast.Expr
+}
+
+type pendAtom struct {
+	v    string // the boolean variable
+	when bool
+	ra   relAtom
+	val  bool
 }
 
 // relAtom keeps the operands of a canonical relational atom.
@@ -35,6 +47,18 @@ func (f Facts) clone() Facts {
 	}
 	for k, v := range f.rel {
 		n.rel[k] = v
+	}
+	if len(f.pend) > 0 {
+		n.pend = make(map[string]pendAtom, len(f.pend))
+		for k, v := range f.pend {
+			n.pend[k] = v
+		}
+	}
+	if len(f.bexp) > 0 {
+		n.bexp = make(map[string]ast.Expr, len(f.bexp))
+		for k, v := range f.bexp {
+			n.bexp[k] = v
+		}
 	}
 	return n
 }
@@ -185,6 +209,11 @@ func (f *Facts) assume(e ast.Expr, val bool) {
 	f.m[atom] = val != flip
 	if ra, ok := canonRel(f.info, e); ok {
 		f.rel[atom] = ra
+	} else if !flip {
+		if f.bexp == nil {
+			f.bexp = map[string]ast.Expr{}
+		}
+		f.bexp[atom] = e
 	}
 	// x == nil decided and x ≡ y: y == nil is decided too
 	if strings.HasSuffix(atom, " == nil") {
@@ -300,6 +329,12 @@ func (f *Facts) kill(lv string) {
 		if mentions(k, lv) {
 			delete(f.m, k)
 			delete(f.rel, k)
+			delete(f.bexp, k)
+		}
+	}
+	for k := range f.pend {
+		if mentions(k, lv) {
+			delete(f.pend, k)
 		}
 	}
 }
@@ -463,6 +498,14 @@ func (g *Graph) factsLattice() Lattice[Facts] {
 					return false
 				}
 			}
+			if len(a.pend) != len(b.pend) {
+				return false
+			}
+			for k := range a.pend {
+				if _, ok := b.pend[k]; !ok {
+					return false
+				}
+			}
 			return true
 		},
 		Step: func(s Facts, st Step) Facts {
@@ -482,6 +525,7 @@ func (g *Graph) factsLattice() Lattice[Facts] {
 				n := s.clone()
 				n.assume(st.Node.(ast.Expr), st.Val)
 				g.P.applyCondPost(info, &n, st.Node.(ast.Expr), st.Val)
+				n.applyPending(st.Node.(ast.Expr), st.Val)
 				// a boolean local that names a condition (ok := a && b; if !ok {...}): the named condition is decided too
 				if g.Fi != nil {
 					ce, val := ast.Unparen(st.Node.(ast.Expr)), st.Val
@@ -612,11 +656,18 @@ func (g *Graph) factsLattice() Lattice[Facts] {
 							if mentionsFieldOf(k, r) {
 								delete(n.m, k)
 								delete(n.rel, k)
+								delete(n.bexp, k)
 							}
+						}
+					}
+					for k := range n.pend {
+						if mentionsFieldOf(k, r) {
+							delete(n.pend, k)
 						}
 					}
 				}
 				g.P.applyCalleePost(info, &n, st.Node)
+				g.P.recordPending(info, &n, st.Node)
 				// x := y / x = y with y a variable or field path of a nil-able type: remember that x is a copy of y
 				// ("x ≡ y"), so that a later nil test of x also decides y (killed when either is assigned)
 				if as, ok := st.Node.(*ast.AssignStmt); ok && len(as.Lhs) == len(as.Rhs) && (as.Tok == token.ASSIGN || as.Tok == token.DEFINE) {
@@ -839,12 +890,26 @@ func joinFacts(g *Graph, a, b Facts, widen bool) Facts {
 		return a
 	}
 	n := Facts{m: map[string]bool{}, rel: map[string]relAtom{}, info: a.info}
+	for k, v := range a.pend {
+		if bv, ok := b.pend[k]; ok && bv.val == v.val {
+			if n.pend == nil {
+				n.pend = map[string]pendAtom{}
+			}
+			n.pend[k] = v
+		}
+	}
 	same := len(a.m) == len(b.m)
 	for k, v := range a.m {
 		if bv, ok := b.m[k]; ok && bv == v {
 			n.m[k] = v
 			if ra, ok := a.rel[k]; ok {
 				n.rel[k] = ra
+			}
+			if be, ok := a.bexp[k]; ok {
+				if n.bexp == nil {
+					n.bexp = map[string]ast.Expr{}
+				}
+				n.bexp[k] = be
 			}
 		} else {
 			same = false
@@ -986,4 +1051,32 @@ func commaOkSource(g *Graph, info *types.Info, id *ast.Ident, cond ast.Node) *as
 		return from(list[i-1])
 	}
 	return nil
+}
+
+// applyPending: the boolean variable tested by cond came out val: the facts recorded for that outcome hold.
+func (f *Facts) applyPending(cond ast.Expr, val bool) {
+	if len(f.pend) == 0 {
+		return
+	}
+	e := ast.Unparen(cond)
+	for {
+		if u, ok := e.(*ast.UnaryExpr); ok && u.Op == token.NOT {
+			e, val = ast.Unparen(u.X), !val
+			continue
+		}
+		break
+	}
+	id, ok := e.(*ast.Ident)
+	if !ok {
+		return
+	}
+	for _, pa := range f.pend {
+		if pa.v == id.Name && pa.when == val {
+			if pa.ra.Op == token.ILLEGAL {
+				f.assume(pa.ra.X, pa.val)
+			} else {
+				f.setRel(pa.ra.Op, pa.ra.X, pa.ra.Y, pa.val)
+			}
+		}
+	}
 }
